@@ -298,6 +298,23 @@ func runFuzz19(w *bufio.Writer, id int, seed int64) (fails int) {
 			return cls(err)
 		})
 	}
+	// fields that can never be indexed (pointer to scalar, container): every probe type, every operator
+	for _, fldp := range []string{"P", "Sl", "M"} {
+		for _, probe := range []interface{}{"high", 1.5, uint(3), int(2), int64(-1), true, nil, []int{1}} {
+			fldp, probe := fldp, probe
+			opn := []string{"=", "!=", "<", ">=", "~="}[r.Intn(5)]
+			call("SearchNS", func() string {
+				s := db.Search(of(), fldp, opn, probe)
+				objs, _ := s.Collect()
+				if s.Err() != nil && len(objs) > 0 {
+					return "objects-from-failed-search"
+				}
+				s2 := db.Search(of(), "A", ">=", int64(-5)).And(fldp, opn, probe)
+				s2.Collect()
+				return cls(s.Err())
+			})
+		}
+	}
 	call("AssignIndex", func() string { var t []string; return cls(db.AssignIndex(of(), "K", &t)) })
 	call("Insert", func() string { rec := flatToRec(genRec(r, c)); return cls(db.InsertOrUpdate(rec)) })
 	call("Update", func() string {
